@@ -283,8 +283,8 @@ func WriteEvidence(path string, r *RunResult, tier string, seed int, wall time.D
 			"anchors (roles of functions and types) are resolved semantically on every run; an unresolved anchor or an unrecognised shape fails the check instead of passing",
 			"non-test sources of the default build configuration (thorough adds GOARCH=386, windows, darwin, the benchmark build tag and a CHA call graph)",
 		}, r.Prop.Assumptions...),
-		WallS:       wall.Seconds(),
-		Violations:  len(r.Violations),
+		WallS:      wall.Seconds(),
+		Violations: len(r.Violations),
 	}
 	if len(r.Mutants) > 0 {
 		ev.Coverage["overlay_mutants"] = r.Mutants
